@@ -22,8 +22,8 @@ pub fn def() -> PropDef {
     panic_policy: PanicPolicy::Violation,
     rule: "three input families, run in a debug (overflow-checked) and a release build: (1) mappings strings over base64, ',', ';' and junk bytes with continuation runs up to 64 digits and huge deltas, through decode_mappings / decoded_mappings (item count must be <= len+1); (2) arbitrary byte strings and mutations of valid source-map documents (truncation, byte flips, deep nesting, huge numbers, invalid UTF-8) through from_json / from_slice / from_reader; (3) hostile source trees (multi-byte and invalid UTF-8 text, wild maps incl. raw mappings strings with negative running values, indices outside the tables, SourceMapSource with inner map with and without original text, replacement positions beyond the end and near u32::MAX) through every Source method, all four streaming modes, hashing, equality, cloning and Debug; any panic is a violation keyed on its source location; non-trivial = a decoder string with a >= 7 digit continuation run, a parser input derived from a valid document, or a tree with a wild map or a replacement beyond the end; distinct = case fingerprint",
     cases: |t| match t {
-      Tier::Quick => 60_000,
-      Tier::Thorough => 1_200_000,
+      Tier::Quick => 150_000,
+      Tier::Thorough => 2_000_000,
     },
   }
 }
